@@ -41,6 +41,209 @@ def build_circuit(spec):
     return c
 
 
+# ------------------------------------------------------------------------------------------------
+# degenerate values.  The generic generators draw cos/sin from Pythagorean triples ("never axis-aligned") and
+# Haar/Cayley unitaries, so an angle that is an exact multiple of pi/2, an exactly diagonal / anti-diagonal /
+# identity / monomial block and an exactly vanishing amplitude never occur there.  This family produces exactly
+# those: every slot of every leaf kind takes the values 0, pi/2, pi, -pi/2 (theta also 2pi, 3pi and the balanced
+# pi/2), 2-mode Unitary blocks are diagonal, anti-diagonal, scalar, real or the identity, wider blocks are
+# monomial (a permutation with phases), and the block is placed between two mixing components so that a wrong
+# phase shows up as a wrong probability.
+# ------------------------------------------------------------------------------------------------
+AXIS = [["1", "0"], ["0", "1"], ["-1", "0"], ["0", "-1"]]            # (cos, sin) of 0, pi/2, pi, -pi/2
+# half-angle of theta as (x, y) of atan2: theta = 0, pi, 2pi, 3pi (= -pi), pi/2, 3pi/2, 4pi (the end of the range)
+THETA_DEG = {"zero": ["1", "0"], "pi": ["0", "1"], "2pi": ["-1", "0"], "3pi": ["0", "-1"], "half": ["1", "1"],
+             "3half": ["-1", "1"]}
+_UNITS = [(1, 0), (-1, 0), (0, 1), (0, -1)]
+
+
+def _unit_qc(rng, exact_axis=None):
+    """a complex number of modulus one over Q[i]: a fourth root of unity or a Pythagorean phase"""
+    from fractions import Fraction
+    if exact_axis is None:
+        exact_axis = rng.random() < 0.5
+    if exact_axis:
+        re, im = rng.choice(_UNITS)
+        return gens.QC(re, im)
+    c, s = core.rational_cs(rng)
+    return gens.QC(Fraction(c), Fraction(s))
+
+
+def _deg_phases(rng, p_generic=0.35):
+    """the four phase slots of a BS: each one an exact multiple of pi/2 (or, sometimes, a generic angle)"""
+    return {k: (gens.gen_cs(rng) if rng.random() < p_generic else rng.choice(AXIS)) for k in ("tl", "bl", "tr", "br")}
+
+
+DEG_KINDS_2 = ("bs-theta-zero", "bs-theta-zero", "bs-theta-pi", "bs-theta-2pi", "bs-theta-half", "bs-phase-slots",
+               "ps-axis", "u2-diagonal", "u2-diagonal", "u2-antidiagonal", "u2-scalar", "u2-identity", "u2-real",
+               "u1-axis", "perm-identity", "perm-swap")
+DEG_KINDS_WIDE = ("u3-monomial", "u3-diagonal", "perm-identity-3", "u3-identity")
+
+
+def gen_degenerate_leaf(rng, maxw, two_mode_only, kind=None):
+    """-> (leaf spec, kind): one component with exactly degenerate values (width <= maxw)"""
+    kinds = [k for k in DEG_KINDS_2 + (() if two_mode_only else DEG_KINDS_WIDE)
+             if not (maxw < 2 and not k.startswith(("ps", "u1"))) and not (maxw < 3 and k in DEG_KINDS_WIDE)]
+    kind = kind or rng.choice(kinds)
+    q0, q1 = gens.QC(0), gens.QC(1)
+    if kind.startswith("bs-theta-"):
+        which = kind[len("bs-theta-"):]
+        if which == "pi":
+            which = rng.choice(["pi", "3pi"])
+        elif which == "half":
+            which = rng.choice(["half", "3half"])
+        leaf = {"t": "BS", "conv": rng.choice(["Rx", "Ry", "H"]), "theta": THETA_DEG[which]}
+        leaf.update(_deg_phases(rng, 0.5) if rng.random() < 0.7 else {k: AXIS[0] for k in ("tl", "bl", "tr", "br")})
+        return leaf, kind
+    if kind == "bs-phase-slots":
+        leaf = {"t": "BS", "conv": rng.choice(["Rx", "Ry", "H"]), "theta": gens.gen_cs(rng)}
+        leaf.update(_deg_phases(rng, 0.0))
+        return leaf, kind
+    if kind == "ps-axis":
+        return {"t": "PS", "phi": rng.choice(AXIS)}, kind
+    if kind == "u1-axis":
+        return {"t": "U", "rows": gens.qmat_json([[_unit_qc(rng, True)]])}, kind
+    if kind == "u2-diagonal":
+        a = _unit_qc(rng)
+        b = _unit_qc(rng)
+        while b == a:
+            b = _unit_qc(rng)
+        return {"t": "U", "rows": gens.qmat_json([[a, q0], [q0, b]])}, kind
+    if kind == "u2-antidiagonal":
+        return {"t": "U", "rows": gens.qmat_json([[q0, _unit_qc(rng)], [_unit_qc(rng), q0]])}, kind
+    if kind == "u2-scalar":
+        a = _unit_qc(rng)
+        return {"t": "U", "rows": gens.qmat_json([[a, q0], [q0, a]])}, kind
+    if kind == "u2-identity":
+        return {"t": "U", "rows": gens.qmat_json([[q1, q0], [q0, q1]])}, kind
+    if kind == "u2-real":
+        from fractions import Fraction
+        c, s = core.rational_cs(rng)
+        c, s = gens.QC(Fraction(c)), gens.QC(Fraction(s))
+        rows = [[c, -s], [s, c]] if rng.random() < 0.5 else [[c, s], [s, -c]]     # rotation / reflection, all real
+        return {"t": "U", "rows": gens.qmat_json(rows)}, kind
+    if kind == "perm-identity":
+        return {"t": "PERM", "perm": [0, 1]}, kind
+    if kind == "perm-swap":
+        return {"t": "PERM", "perm": [1, 0]}, kind
+    if kind == "perm-identity-3":
+        return {"t": "PERM", "perm": [0, 1, 2]}, kind
+    if kind == "u3-identity":
+        return {"t": "U", "rows": gens.qmat_json(gens.qmat_eye(3))}, kind
+    if kind in ("u3-monomial", "u3-diagonal"):
+        p = [0, 1, 2]
+        if kind == "u3-monomial":
+            while p == [0, 1, 2]:
+                rng.shuffle(p)
+        ph = [_unit_qc(rng) for _ in range(3)]
+        if kind == "u3-diagonal" and ph[0] == ph[1] == ph[2]:
+            ph[2] = ph[2] * gens.QC(0, 1)
+        return {"t": "U", "rows": gens.qmat_json([[ph[i] if p[j] == i else q0 for j in range(3)] for i in range(3)])}, kind
+    raise ValueError(kind)
+
+
+def gen_mixer(rng, two_mode_only, w=2):
+    """a component that mixes its modes with generic (nowhere vanishing) entries"""
+    if not two_mode_only and rng.random() < 0.3:
+        return {"t": "UH", "n": w, "seed": rng.randrange(1 << 30)}
+    return gens.gen_leaf(rng, 2, kinds=("BS",))
+
+
+def gen_degenerate_spec(rng, m, two_mode_only, shape, forced=None):
+    """-> (spec, kinds): a circuit of the degenerate family.
+    shape 'between': generic prefix, mixer, degenerate block, mixer, generic suffix - the two mixers overlap the
+    block, so the block's phases decide probabilities;  'mixed': generic and degenerate components interleaved;
+    'all': only degenerate components (most amplitudes vanish exactly, the matrix may be monomial)."""
+    comps, kinds = [], []
+
+    def place(leaf, lo=None, hi=None):
+        w = gens.leaf_width(leaf)
+        offs = [o for o in range(0, m - w + 1) if (lo is None or (o <= hi and o + w - 1 >= lo))]
+        comps.append([rng.choice(offs), leaf])
+        return comps[-1][0]
+
+    def generic(k):
+        for _ in range(k):
+            leaf = gens.gen_leaf(rng, m, kinds=("BS", "PS", "PERM") if two_mode_only else ("BS", "PS", "PERM", "U", "UH"))
+            if gens.leaf_width(leaf) <= m:
+                place(leaf)
+
+    if m == 1:
+        for _ in range(rng.randint(1, 3)):
+            leaf, kind = gen_degenerate_leaf(rng, 1, two_mode_only)
+            place(leaf)
+            kinds.append(kind)
+        return {"m": m, "comps": comps}, kinds
+    if shape == "between":
+        generic(rng.randint(0, 2))
+        leaf, kind = gen_degenerate_leaf(rng, m, two_mode_only,
+                                         kind=forced or rng.choice(["bs-theta-zero", "u2-diagonal", None, None]))
+        w = gens.leaf_width(leaf)
+        off = rng.randint(0, m - w)
+        lo, hi = off, off + w - 1
+        # the mixers act on the LAST mode of the block (and one neighbour): a phase error on any mode of the block
+        # is then turned into a probability error
+        mixer = lambda: gen_mixer(rng, two_mode_only, rng.choice([2, min(3, m)]))
+        place(mixer(), hi if rng.random() < 0.7 else lo, hi)
+        comps.append([off, leaf])
+        kinds.append(kind)
+        if rng.random() < 0.3:          # two degenerate blocks in a row on overlapping modes
+            leaf2, kind2 = gen_degenerate_leaf(rng, m, two_mode_only)
+            place(leaf2, lo, hi)
+            kinds.append(kind2)
+        place(mixer(), hi if rng.random() < 0.7 else lo, hi)
+        generic(rng.randint(0, 2))
+        kinds.append("between-mixers")
+    elif shape == "mixed":
+        for _ in range(rng.randint(3, 6)):
+            if rng.random() < 0.5:
+                leaf, kind = gen_degenerate_leaf(rng, m, two_mode_only)
+                place(leaf)
+                kinds.append(kind)
+            else:
+                generic(1)
+    else:
+        for _ in range(rng.randint(2, 5)):
+            leaf, kind = gen_degenerate_leaf(rng, m, two_mode_only)
+            place(leaf)
+            kinds.append(kind)
+        kinds.append("all-degenerate")
+    return {"m": m, "comps": comps}, kinds
+
+
+def block_shapes(spec):
+    """what the REAL components' own matrices look like (exact float comparisons on purpose): the counters below
+    are only credited when the matrix the engines will see is exactly degenerate"""
+    out = set()
+    for off, leaf in spec["comps"]:
+        u = np.array(gens.build_leaf(leaf).compute_unitary(use_symbolic=False), dtype=complex)
+        k = u.shape[0]
+        offdiag = u[~np.eye(k, dtype=bool)]
+        if k >= 2 and np.all(offdiag == 0):
+            d = np.diagonal(u)
+            if np.all(d == 1):
+                out.add("identity")
+            elif np.all(d == d[0]):
+                out.add("scalar")
+            else:
+                out.add("diagonal")
+                if k == 2:
+                    out.add("diagonal-2")
+        elif k == 2 and u[0, 0] == 0 and u[1, 1] == 0:
+            out.add("antidiagonal")
+        elif k >= 2 and np.all((u != 0).sum(axis=0) == 1):
+            out.add("monomial")
+        elif k == 2 and np.all(np.abs(offdiag) < 1e-12):
+            out.add("nearly-diagonal")
+        elif k == 2 and abs(u[0, 0]) < 1e-12:
+            out.add("nearly-antidiagonal")
+        if k == 1 and min(abs(u[0, 0] - z) for z in (1, -1, 1j, -1j)) < 1e-12:
+            out.add("phase-axis")
+        if leaf["t"] == "BS" and leaf["theta"] == THETA_DEG["zero"]:
+            out.add("theta-zero")
+    return out
+
+
 def fact_prod(s):
     p = 1
     for x in s:
@@ -246,7 +449,13 @@ def one_case(chk, spec, n, engine, masks, reuse=False, order=None, mask_with_n=T
         for s in states:
             reqs.append({"op": "row", "m": m, "s": s, "masks": [mask_json(mk) for mk in masks], "extra": [],
                          "U": core.mat(u.tolist())})
-    reps = chk.lean.ask_many(reqs)
+    cache = chk.__dict__.setdefault("_c02_lean_cache", {})
+    ckey = json.dumps(reqs, sort_keys=True)
+    if ckey not in cache:       # the same circuit is given to several engines (degenerate family): one exact evaluation
+        if len(cache) > 64:
+            cache.clear()
+        cache[ckey] = chk.lean.ask_many(reqs)
+    reps = cache[ckey]
     if "err" in reps[0]:
         raise core.LeanError(reps[0]["err"])
     assert reps[0]["states"] == states
@@ -304,6 +513,20 @@ def gen_block2(rng, kind):
     # four entries, unitarity plays no role
     def z():
         return complex(rng.randint(-8, 8) / 8, rng.randint(-8, 8) / 8)
+    if kind == "degenerate":
+        # exactly diagonal / anti-diagonal / scalar / identity unitary blocks (Unitary and BS leaves at theta = 0, pi,
+        # 2pi with phases on the axes) ...
+        leaf, _ = gen_degenerate_leaf(rng, 2, True, kind=rng.choice(
+            ["bs-theta-zero", "bs-theta-pi", "bs-theta-2pi", "bs-theta-half", "bs-phase-slots", "u2-diagonal",
+             "u2-antidiagonal", "u2-scalar", "u2-identity", "u2-real"]))
+        return np.array(gens.build_leaf(leaf).compute_unitary(use_symbolic=False), dtype=complex).tolist()
+    if kind == "free-degenerate":
+        # ... and non-unitary matrices with exactly vanishing entries (diagonal, anti-diagonal, triangular, one
+        # entry, zero)
+        pat = rng.choice([(1, 0, 0, 1), (0, 1, 1, 0), (1, 1, 0, 1), (1, 0, 1, 1), (1, 0, 0, 0), (0, 0, 0, 1),
+                          (0, 1, 0, 0), (0, 0, 0, 0)])
+        e = [z() if b else 0j for b in pat]
+        return [[e[0], e[1]], [e[2], e[3]]]
     return [[z(), z()], [z(), z()]]
 
 
@@ -516,7 +739,12 @@ def run(chk: core.Check):
     chk.required_branches = ["mask", "mask-drops-states", "bunched-input", "reused-instance", "reused-instance-mask-without-n", "reused-instance-mask-other-photon-number", "stepper-perm-not-involution", "engine:Naive", "engine:SLOS",
                              "engine:SLAP", "engine:MPS", "engine:Stepper", "one-mode", "mps-tensor2", "mps-tensor2-bunched",
                              "mps-tensor2-nonsymmetric", "mps-tensor1", "stepper-steps", "stepper-steps-perm",
-                             "stepper-steps-spectators-both-sides", "stepper-steps-bunched"]
+                             "stepper-steps-spectators-both-sides", "stepper-steps-bunched",
+                             "degenerate-diagonal-block", "degenerate-theta-zero", "degenerate-between-mixers",
+                             "degenerate-antidiagonal-block", "degenerate-identity-block", "degenerate-all",
+                             "degenerate-axis-phase", "degenerate-mask", "degenerate-one-mode",
+                             "degenerate-reused-instance", "degenerate-stepper-steps", "degenerate-mps-tensor2"] + \
+                            [f"degenerate-diagonal-block-between-mixers:{e}" for e in ENGINES]
     chk.lean = core.LeanDriver("C02")
     rng = chk.rng
     n_circ = chk.pick(10, 26)
@@ -540,21 +768,41 @@ def run(chk: core.Check):
                 chk.branch("stepper-perm-not-involution")
             masks = [] if (engine == "Stepper" or rng.random() < 0.5 or n == 0) else gen_masks(rng, m, n)
             handle(chk, spec, n, engine, masks)
+    # --- degenerate values: every engine gets the SAME circuit (two-mode components only, so that MPS takes it) on
+    # even rounds; on odd rounds the four engines that accept wider blocks get monomial 3-mode blocks as well
+    deg_sizes = chk.pick([(2, 2), (3, 2), (3, 3), (4, 2), (2, 3), (3, 1), (3, 2), (4, 2)],
+                         [(2, 2), (3, 2), (3, 3), (4, 2), (2, 4), (3, 1), (4, 3), (5, 2), (3, 4), (4, 2), (3, 3), (5, 3)])
+    for i in range(chk.pick(8, 24)):
+        m, n = deg_sizes[i % len(deg_sizes)]
+        shape = ("between", "between", "mixed", "all")[i % 4]
+        forced = {0: "bs-theta-zero", 1: "u2-diagonal"}.get(i % 4)
+        spec2, kinds2 = gen_degenerate_case(rng, m, True, shape, forced)
+        specw, kindsw = gen_degenerate_case(rng, m, False, shape, forced) if i % 2 else (spec2, kinds2)
+        for engine in ENGINES:
+            spec, kinds = (spec2, kinds2) if engine == "MPS" else (specw, kindsw)
+            masks = [] if (engine == "Stepper" or n == 0 or rng.random() < 0.6) else gen_masks(rng, m, n)
+            handle(chk, spec, n, engine, masks, degenerate=kinds)
     # one-mode circuits (m = 1 is inside the quantifier): every engine, bunched inputs only
     for n in chk.pick((1, 3), (0, 1, 2, 3, 5)):
         for engine in ENGINES:
             chk.branch("one-mode")
             handle(chk, gen_circuit_spec(rng, 1, rng.randint(1, 3), engine == "MPS"), n, engine, [])
+            if n in (1, 3):
+                spec, kinds = gen_degenerate_spec(rng, 1, engine == "MPS", "all")
+                chk.branch("degenerate-one-mode")
+                handle(chk, spec, n, engine, [], degenerate=kinds)
     # --- MPS transition tensors against the closed formulas of the model (every cell within the photon number)
-    for i in range(chk.pick(9, 21)):
-        kind = ("cayley", "leaf", "free")[i % 3]
+    for i in range(chk.pick(15, 30)):
+        kind = ("cayley", "leaf", "free", "degenerate", "free-degenerate")[i % 5]
         u = gen_block2(rng, kind)
         nms = chk.pick([2, 3, 4], [2, 3, 4, 5, 6])
-        nmax = nms[(i + i // 3) % len(nms)]
+        nmax = nms[(i + i // 5) % len(nms)]
+        if "degenerate" in kind:
+            chk.branch("degenerate-mps-tensor2")
         if abs(u[0][1] - u[1][0]) > 1e-6:
             chk.branch("mps-tensor2-nonsymmetric")
         chk.count("mps_tensor", f"{kind}-n{nmax}")
-        res = mps_tensor_case(chk, u, nmax, unitary=(kind != "free"))
+        res = mps_tensor_case(chk, u, nmax, unitary=not kind.startswith("free"))
         chk.case(("mps2", json.dumps(core.mat(u)), nmax), nontrivial=nmax >= 2, sample={"mps2": kind, "nmax": nmax})
         for k_, sig_, what_, rp_ in res:
             chk.fail(k_, sig_, what_, rp_)
@@ -571,6 +819,9 @@ def run(chk: core.Check):
         m, n = rng.choice(chk.pick([(2, 2), (3, 2), (3, 3), (4, 2), (4, 3), (5, 2)],
                                    [(2, 3), (3, 2), (3, 3), (4, 2), (4, 3), (5, 2), (5, 3), (6, 2), (3, 4)]))
         spec = gen_circuit_spec(rng, m, rng.randint(2, chk.pick(6, 9)), False)
+        if i % 3 == 1:
+            spec, _ = gen_degenerate_case(rng, m, False, ("between", "mixed", "all")[(i // 3) % 3], None)
+            chk.branch("degenerate-stepper-steps")
         if m >= 3 and i % 2 == 0:
             w = rng.randint(3, m)
             perm = list(range(w))
@@ -585,6 +836,9 @@ def run(chk: core.Check):
         m, n = rng.choice([(2, 1), (2, 2), (3, 1), (3, 2), (3, 3), (4, 2), (2, 3), (4, 1)])
         for engine in ENGINES:
             spec = gen_circuit_spec(rng, m, rng.randint(1, 5), engine == "MPS")
+            deg = None
+            if (i + ENGINES.index(engine)) % 3 == 0:
+                spec, deg = gen_degenerate_case(rng, m, engine == "MPS", rng.choice(["between", "mixed", "all"]), None)
             states = all_states(m, n)
             order = list(states)
             rng.shuffle(order)
@@ -593,24 +847,66 @@ def run(chk: core.Check):
             # a third of the time the long-lived engine also carries a mask given WITHOUT a photon number: it must
             # be instantiated afresh for each input's photon number
             masks = gen_masks(rng, m, n) if (engine != "Stepper" and n > 0 and rng.random() < 0.35) else []
-            history.append((spec, n, engine, order, masks, True))
+            history.append((spec, n, engine, order, masks, True, deg))
             if masks:
                 # ... and then serves inputs of ANOTHER photon number with the same circuit and the same mask, with no
                 # set_circuit / set_mask in between
                 n2 = rng.choice([k for k in (1, 2, 3) if k != n])
                 order2 = all_states(m, n2)
                 rng.shuffle(order2)
-                history.append((spec, n2, engine, order2, masks, False))
-    for spec, n, engine, order, masks, configure in history:
+                history.append((spec, n2, engine, order2, masks, False, deg))
+    for spec, n, engine, order, masks, configure, deg in history:
+        if deg is not None:
+            chk.branch("degenerate-reused-instance")
         if masks:
             chk.branch("reused-instance-mask-without-n")
         if not configure:
             chk.branch("reused-instance-mask-other-photon-number")
-        handle(chk, spec, n, engine, masks, reuse=True, order=order, mask_with_n=False, configure=configure)
+        handle(chk, spec, n, engine, masks, reuse=True, order=order, mask_with_n=False, configure=configure,
+               degenerate=deg)
 
 
-def handle(chk, spec, n, engine, masks, reuse=False, order=None, mask_with_n=True, configure=True):
+def gen_degenerate_case(rng, m, two_mode_only, shape, forced):
+    """a circuit of the degenerate family; with `forced` (a 2-mode diagonal kind, shape 'between') the block is
+    regenerated until the REAL component's matrix is exactly diagonal and not scalar"""
+    for _ in range(50):
+        spec, kinds = gen_degenerate_spec(rng, m, two_mode_only, shape, forced)
+        if forced is None or "diagonal-2" in block_shapes(spec):
+            return spec, kinds
+    raise RuntimeError("degenerate generator: no exactly diagonal block in 50 draws")
+
+
+def credit_degenerate(chk, spec, engine, masks, kinds):
+    shapes = block_shapes(spec)
+    for k in kinds:
+        chk.count("degenerate_kind", k)
+    for s_ in shapes:
+        chk.count("degenerate_shape", s_)
+    between = "between-mixers" in kinds
+    if "diagonal-2" in shapes:
+        chk.branch("degenerate-diagonal-block")
+        if between:
+            chk.branch("degenerate-diagonal-block-between-mixers:" + engine)
+    if "theta-zero" in shapes:
+        chk.branch("degenerate-theta-zero")
+    if between:
+        chk.branch("degenerate-between-mixers")
+    if "antidiagonal" in shapes:
+        chk.branch("degenerate-antidiagonal-block")
+    if "identity" in shapes:
+        chk.branch("degenerate-identity-block")
+    if "phase-axis" in shapes:
+        chk.branch("degenerate-axis-phase")
+    if "all-degenerate" in kinds:
+        chk.branch("degenerate-all")
+    if masks:
+        chk.branch("degenerate-mask")
+
+
+def handle(chk, spec, n, engine, masks, reuse=False, order=None, mask_with_n=True, configure=True, degenerate=None):
     m = spec["m"]
+    if degenerate is not None:
+        credit_degenerate(chk, spec, engine, masks, degenerate)
     chk.branch("engine:" + engine)
     if n >= 2:
         chk.branch("bunched-input")
